@@ -214,6 +214,8 @@ class World:
             orig = getattr(sched, attr)
 
             def wrapped(plan, _orig=orig, _cls=cls, _attr=attr):
+                if world._nest == 0 and world.who.startswith("M") and id(plan) not in world.creator:
+                    world.creator[id(plan)] = (world.who, plan)      # keeps the plan alive: ids stay unique
                 if world._nest == 0:     # entry points may delegate to each other: log the outer call only
                     world.queue_log.append({
                         "day": world.today, "site": int(plan.site_id[1:]), "entry": _cls,
@@ -224,6 +226,7 @@ class World:
                         "windows": (getattr(plan, "_small_window", None), getattr(plan, "_long_window", None)),
                         "tag": d2i(plan._site.get_latest_tagging_survey_date()),
                         "was_queued": bool(world.pre_inq.get(plan.site_id, False)),
+                        "was_pooled": bool(world.pre_inpool.get(plan.site_id, False)),
                         "in_progress": bool(plan._active_survey_report is not None
                                             and plan._active_survey_report.survey_in_progress),
                     })
@@ -236,6 +239,8 @@ class World:
             setattr(sched, attr, wrapped)
         self._nest = 0
         self.pre_inq = {}
+        self.pre_inpool = {}
+        self.creator = {}
 
     def _wrap_method(self, i, m):
         world = self
@@ -270,6 +275,7 @@ class World:
         self.today = dn
         self.who = self.mnames[i]
         self.pre_inq = dict(self.fu_schedule.get_site_id_queue_list())
+        self.pre_inpool = dict(m._site_IDs_in_consideration_for_flag)
         m._sensor.rates = {"s%d" % s: float(Fraction(p, q)) for (s, p, q) in screens}
         if screens:
             wp = Workplan([SurveyPlanner(self.sites[s]) for (s, p, q) in screens], cur)
@@ -321,6 +327,34 @@ class World:
         pool = [(p.site_id, frac(p.rate_at_site)) for p in m._candidates_for_flags]
         inpool = [1 if m._site_IDs_in_consideration_for_flag.get(s.get_id(), False) else 0 for s in self.sites]
         return pool, inpool, d2i(m._first_candidate_date), m._detection_count
+
+    def queue_creators(self):
+        """for every queue entry in pop order: the screening method that first queued that plan object"""
+        heap = sorted(self.fu_schedule._survey_queue.queue, key=lambda e: (e[0], e[1]))
+        return [self.creator.get(id(e[2]), ("?", None))[0] for e in heap]
+
+    def flag_events(self, i):
+        """the flag events of screening method i in the format of the driver's `evs` reply: insertions of a
+        new request (pool decision, instant route from the pool or for a site not queued)"""
+        out = []
+        dec_first = {(d["day"], d["method"]): d["first"] for d in self.decisions}
+        for e in self.queue_log:
+            if e["who"] != self.mnames[i]:
+                continue
+            if e["ctx"] == "decision":
+                route, first = "pool", dec_first.get((e["day"], i))
+            elif e["was_pooled"] or not e["was_queued"]:
+                route, first = "instant", e["day"]
+            else:
+                continue
+            out.append("%d:%s:%s:%s:%d:%d:%s:%d:[%s]" % (
+                e["site"], fs(e["rate"]), fs(e["long"]), route, e["latest"], e["day"],
+                "-" if first is None else first, e["tag"], ";".join(fs(x) for x in e["rates"])))
+        return "[" + ",".join(out) + "]"
+
+    def visit_events(self):
+        return "[" + ",".join("%d:%d:%d:%d:%s" % (v["site"], v["latest"], v["tag_before"], v["day"], v["outcome"])
+                              for v in self.visits) + "]"
 
     def inq_bits(self):
         inq = self.fu_schedule.get_site_id_queue_list()
@@ -410,6 +444,7 @@ def run_history(hist):
                 r["post"] = w.site_plans(i, r["site"])
             w.releases += rel
             w.snaps.append({"day": dn, "op": "update", "method": i, "nflags": nf, "queue": w.queue_in_pop_order(),
+                            "creators": w.queue_creators(),
                             "inq": w.inq_bits(), "pools": [w.method_state(k) for k in range(len(w.methods))]})
             impl.append("flags=%d " % nf + w.dump())
         try:
@@ -422,15 +457,22 @@ def run_history(hist):
             return lines, impl, w
         lines.append("fuday %d [%s]" % (dn, ",".join("[%s,%d]" % (sid[1:], "cpu".index(o)) for sid, o in out)))
         w.snaps.append({"day": dn, "op": "fuday", "queue": w.queue_in_pop_order(), "inq": w.inq_bits(),
+                        "creators": w.queue_creators(),
                         "pools": [w.method_state(k) for k in range(len(w.methods))]})
         impl.append("ok " + w.dump())
+    # the model's ghost flag events / visits against what the real objects were seen doing
+    for i in range(len(w.methods)):
+        lines.append("evs %d" % i)
+        impl.append(w.flag_events(i))
+    lines.append("visits")
+    impl.append(w.visit_events())
     return lines, impl, w
 
 
 def binding_check():
     """the REAL binding rule of programs/program.py: Program._gen_method (called on a stub program that
     holds two follow-up schedules) must hand the screening method the schedule of its preferred
-    follow-up method, and Program.do_daily_program_deployment must run follow-up methods last"""
+    follow-up method (the placeholder fallback "first schedule of the dict" is not exercised)"""
     from programs.program import Program
 
     names = ["M0", "FU", "FU_other"]
@@ -451,3 +493,36 @@ def binding_check():
     ok = isinstance(m, SiteLevelMethod) and m._follow_up_schedule is mine \
         and m._site_IDs_in_follow_up_queue is mine.get_site_id_queue_list()
     return ok, {"bound_to": getattr(getattr(m, "_follow_up_schedule", None), "_method", None), "expected": "FU"}
+
+
+def proportion_grid(cells):
+    """the REAL SiteLevelMethod._filter_candidates_by_proportion on pools of n real planners:
+    cells = iterable of (thrFirst, k, n, c) with proportion k/100 (the double k/100 as a user would write
+    it); returns list of (thrFirst, k, n, c, kept, kept_is_prefix)"""
+    from sortedcontainers import SortedList
+    from scheduling.surveying_dataclasses import DetectionRecord
+    from scheduling.follow_up_survey_planner import FollowUpSurveyPlanner
+
+    names = ["M0", "FU"]
+    site = StubSite(0, names, 120)
+    end = SIM_START + timedelta(days=10)
+    sink = io.StringIO()
+    with contextlib.redirect_stdout(sink):
+        sched = FollowUpMobileSchedule("FU", [site], SIM_START, end, 1, 1)
+        mp = {"stationary": False, "rd": 0, "delay": 0, "prop": [1, 1], "thrFirst": True, "thr": [1, 1],
+              "inst": None, "filter": "recent", "sw": 1, "lw": 1, "sthr": [1, 1], "lthr": [1, 1]}
+        m = SiteLevelMethod("M0", screening_props(mp), False, sites=[site], follow_up_schedule=sched, input_dir="")
+    plans = [FollowUpSurveyPlanner(DetectionRecord("s%d" % i, site, float(1000 - i)), SIM_START) for i in range(201)]
+    out = []
+    for (tf, k, n, c) in cells:
+        m._threshold_first = bool(tf)
+        m._proportion = k / 100
+        m._detection_count = c
+        m._candidates_for_flags = SortedList(plans[:n], key=lambda x: -x.rate_at_site)
+        m._site_IDs_in_consideration_for_flag = {pl.site_id: True for pl in plans[:n]}
+        m._filter_candidates_by_proportion()
+        kept = list(m._candidates_for_flags)
+        out.append((tf, k, n, c, len(kept), kept == plans[:len(kept)]
+                    and all(m._site_IDs_in_consideration_for_flag[pl.site_id] == (j < len(kept))
+                            for j, pl in enumerate(plans[:n]))))
+    return out
